@@ -49,7 +49,11 @@ def e2eVerdict (s : Bytes) (aS bS : List Bytes) (hx : String) (out : List String
     Specification (property text, fix D39): BOTH entries route by the path as written on the request line (the bytes before
     the first '?') — owner of the service that path names, method string `"/" ++ strip path` — and net/http rejects a
     line whose path has a malformed escape.  Model: `routeGRPC … (webName u)` / `routeHTTPsvc … POST u` on `parseTarget`. -/
-def escVerdict (t : Bytes) (svcs : List Bytes) (out : List String) : String :=
+def escVerdict (t : Bytes) (svcs : List Bytes) (hm : Bytes) (out0 : List String) : String :=
+  -- a method token other than the exact bytes `POST`: only the transcoded entry is judged (the property is silent about the
+  -- method of a gRPC-Web request); it must give the non-POST answer whatever the path names
+  let isPost := hm = GB.C06.POST
+  let out := if isPost then out0 else out0.drop 1
   let routes : GB.C06.SvcName → Option GB.C06.SvcRoute := fun svc =>
     if svcs.contains svc then some { target := [97], ver := 0, idx := 0 } else none
   let pool : GB.C06.Name → Bool := fun _ => true
@@ -60,13 +64,16 @@ def escVerdict (t : Bytes) (svcs : List Bytes) (out : List String) : String :=
     | .ok tg _ _ rpc _ _ => s!"F.{toHex tg}.{toHex rpc}"
     | .status c _ => s!"S{c}"
   let model : List String := match parseTarget t with
-    | none => ["web=R", "http=R"]
-    | some u => [s!"web=G:{gTok (routeGRPC pool routes (some (webName u)))}", s!"http=H:{hTok (routeHTTPsvc pool routes GB.C06.POST u)}"]
+    | none => if isPost then ["web=R", "http=R"] else ["http=R"]
+    | some u =>
+      if isPost then [s!"web=G:{gTok (routeGRPC pool routes (some (webName u)))}", s!"http=H:{hTok (routeHTTPsvc pool routes GB.C06.POST u)}"]
+      else [s!"http=H:{hTok (routeHTTPsvc pool routes hm u)}"]
   let accepted := match t with
     | 47 :: _ => (unescapePath (targetPath t)).isSome
     | _ => false
   let spec : List String :=
-    if !accepted then ["web=R", "http=R"]
+    if !accepted then (if isPost then ["web=R", "http=R"] else ["http=R"])
+    else if !isPost then [s!"http=H:S{GB.C06.codeUnimplemented}"]   -- only the exact token POST is the gRPC-style HTTP form
     else match GB.C06.Hist.specParse (targetPath t) with
       | some (svc, m) =>
         if svcs.contains svc then
@@ -81,7 +88,8 @@ def escVerdict (t : Bytes) (svcs : List Bytes) (out : List String) : String :=
                     else "b=esc-method-differs-when-decoded"
         | none => "b=esc-rejected")
     else "b=esc-plain"
-  let nt := if accepted && pth.contains percent then " nt" else ""
+  let br := if isPost then br else if hm.map (fun c => if 97 ≤ c && c ≤ 122 then c - 32 else c) = GB.C06.POST then "b=esc-method-post-up-to-case" else "b=esc-method-other"
+  let nt := if accepted && (pth.contains percent || !isPost) then " nt" else ""
   if out ≠ spec then s!"VIOL esc impl={" ".intercalate out} spec={" ".intercalate spec}"
   else if out ≠ model then s!"DIFF model={" ".intercalate model}"
   else s!"OK{nt} {br}"
@@ -110,8 +118,12 @@ def handle : Handler
     | _, _, _ => "BAD c14 e2e"
   | ["esc", hx, sL], out =>
     match parseHex hx, parseSvcs sL with
-    | some t, some svcs => escVerdict t svcs out
+    | some t, some svcs => escVerdict t svcs GB.C06.POST out
     | _, _ => "BAD c14 esc"
+  | ["esc", hx, sL, mx], out =>
+    match parseHex hx, parseSvcs sL, parseHex mx with
+    | some t, some svcs, some hm => escVerdict t svcs hm out
+    | _, _, _ => "BAD c14 esc"
   | "hist" :: inp, out => GB.C06.Hist.judgeHist inp out
   | "stress" :: rest, out => GB.C11.handle ("stress" :: rest) out   -- contested-claim stress, judged by the C11 predicates
   | _, _ => "BAD c14 line"
